@@ -572,7 +572,22 @@ fn gen_body(rng: &mut Rng) -> Vec<u8> {
         };
         return [pre, doc, post].concat();
     }
-    match rng.below(10) {
+    match rng.below(12) {
+        // long bodies of multi-byte text that are not the JSON an app expects (a localised error page, a
+        // document of another shape): every byte offset falls inside a character for some of them
+        10 => {
+            let unit = *rng.pick(&["é", "日本語のエラー", "✓ déjà vu ", "😀"]);
+            let mut t = "x".repeat(rng.below(4) as usize);
+            while t.len() < rng.range(100, 600) as usize {
+                t.push_str(unit);
+            }
+            t.into_bytes()
+        }
+        11 => {
+            let unit = *rng.pick(&["ü", "語", "€"]);
+            let pad = "p".repeat(rng.below(4) as usize);
+            format!(r#"{{"{pad}message":"{}","code":7}}"#, unit.repeat(rng.range(40, 200) as usize)).into_bytes()
+        }
         0 => vec![],
         1 => b"hello world".to_vec(),
         2 => "héllo wörld ✓".as_bytes().to_vec(),
